@@ -46,6 +46,7 @@ _TIER = None
 
 
 def _task(t, stop_at=None):
+    core.reset_ambient()
     bi, lo, hi = t
     blk = _BLOCKS[bi]
     twin = blk.twin_block() if blk.twin else None
